@@ -220,3 +220,76 @@ func init() {
 		return 0
 	}
 }
+
+// EMU-FLAG (C12): `Element.modReduced` is a trust flag — AssertIsInRange returns at once and reduce() takes its
+// fast path when it is set — so it may only be *set* behind the comparison that justifies it. Every store into the
+// field is one of: the constant false; a copy of another element's flag; or any other value, in which case the store
+// must be dominated by a call of Field.AssertIsLessOrEqual on the same element.
+func RunEmuFlag(p *Prog, r *Report) {
+	pkgPath := modPath + "/std/math/emulated"
+	n := 0
+	seen := map[string]bool{}
+	for _, fn := range p.Funcs {
+		pk := FuncPkg(fn)
+		if pk == nil || pk.Path() != pkgPath || fn.Blocks == nil {
+			continue
+		}
+		ord := 0
+		for _, b := range fn.Blocks {
+			for _, ins := range b.Instrs {
+				st, ok := ins.(*ssa.Store)
+				if !ok {
+					continue
+				}
+				fa, ok := st.Addr.(*ssa.FieldAddr)
+				if !ok || fieldName(fa.X.Type(), fa.Field) != "modReduced" || namedName(fa.X.Type()) != "Element" {
+					continue
+				}
+				ord++
+				key := fmt.Sprintf("%s | modReduced-store#%d", Abstract(FuncName(fn)), ord)
+				if seen[key] {
+					continue
+				}
+				seen[key] = true
+				n++
+				why := ""
+				if c, ok := st.Val.(*ssa.Const); ok && c.Value != nil && c.Value.String() == "false" {
+					why = "stores the constant false"
+				} else if u, ok := st.Val.(*ssa.UnOp); ok && u.Op == token.MUL {
+					if fa2, ok := u.X.(*ssa.FieldAddr); ok && fieldName(fa2.X.Type(), fa2.Field) == "modReduced" {
+						why = "copies the flag of another element"
+					}
+				}
+				if why == "" {
+					want := normIdx(Desc(fa.X))
+					for _, b2 := range fn.Blocks {
+						for _, i2 := range b2.Instrs {
+							c, ok := i2.(*ssa.Call)
+							if !ok {
+								continue
+							}
+							cal := c.Call.StaticCallee()
+							if cal == nil || funcBaseName(cal) != "AssertIsLessOrEqual" || len(c.Call.Args) < 2 {
+								continue
+							}
+							if normIdx(Desc(c.Call.Args[1])) != want {
+								continue
+							}
+							if b2 == b && instrIndex(i2) < instrIndex(ins) || b2 != b && b2.Dominates(b) {
+								why = "dominated by AssertIsLessOrEqual on the same element at " + p.Pos(c.Pos())
+							}
+						}
+					}
+				}
+				if why != "" {
+					r.Pass("EMU-FLAG", pkgPath, FuncName(fn), fmt.Sprintf("modReduced-store#%d", ord), p.Pos(st.Pos()), why, true)
+				} else {
+					r.Fail("EMU-FLAG", pkgPath, FuncName(fn), fmt.Sprintf("modReduced-store#%d", ord), p.Pos(st.Pos()), "the trust flag modReduced is set without a dominating comparison of the element with the modulus: AssertIsInRange / ReduceStrict / ToBitsCanonical then skip the comparison for a value that is only width-constrained")
+				}
+			}
+		}
+	}
+	if n < 3 {
+		r.Fail("UNRESOLVED", "-", "-", "emu-flag", "-", fmt.Sprintf("%d stores into Element.modReduced found, confirmed 3", n))
+	}
+}
